@@ -195,11 +195,11 @@ func childObject(a J, decoy bool) (*security.ChildSAKey, J) {
 	if n := gs(a, "integ"); n != "" && n != "none" {
 		c.IntegKInfo = integ.StrToKType(integNames[n])
 		if c.IntegKInfo == nil {
-			return nil, J{"infra": "derive_child: integ " + n}
+			return nil, J{"err": true, "errmsg": "StrToKType: no ESP integrity type for " + n}
 		}
 	}
-	if c.EncrKInfo == nil {
-		return nil, J{"infra": "derive_child: encr"}
+	if c.EncrKInfo == nil { // the library does not know an ESP algorithm it advertises, by its own name
+		return nil, J{"err": true, "errmsg": fmt.Sprintf("StrToKType: no ESP encryption type for %d-bit AES-CBC", gi(a, "encr"))}
 	}
 	if via := gs(a, "via"); via != "" {
 		// the Child SA as it comes out of a negotiated ESP proposal (NewChildSAKeyByProposal), with or without a DH transform:
